@@ -45,6 +45,30 @@ CHECKS = {
         "note": "Trusted: Router.tla/RouterSys.tla as transcription of rumqttd/src/router (bound step by step by trace validation of the real router with a full state projection), TLC, the verif hooks that step the router single-threaded, the scripted clients of the harness. Exhaustive only for the small configurations; production constants (window 100, buffer 200) sampled by validated traces. Topic aliases, subscription ids, message expiry, segment eviction are not modelled here.",
         "technique": "TLC model checking of RouterSys.tla + TLC trace validation (state projection per step, invariants on every trace state) of the real router stepped through TLC-generated and seeded schedules",
     },
+    "C14": {
+        "bins": ["router_run"], "bins_small": ["router_run"],
+        "category": "model_checking",
+        "text": "RouterSys.tla with a well-behaved publisher/subscriber pair and adversaries (arbitrary acks, disconnects, reconnect storms under their own ids, raw late events): the pair's delivery and reply invariants (DeliveredExactly, AcksInOrder, QuiescentComplete) must hold whatever the others do, handling one connection's packets removes at most that connection (AckClosesOnlyThat), and a Ready/PublishWill of an ended connection never removes a later one. The cross-generation demand for Event::Disconnect is a listed known finding (a late Disconnect removes the connection that reuses the slab id): its witness is replayed on every run and reported as KNOWN-FINDING while it reproduces; every other violation is still reported. TLC-generated schedules and seeded structured scenarios are executed on the real Router (scaled-constant build) and validated step by step against RouterTrace.tla with these invariants evaluated in every state.",
+        "design_ref": "DESIGN.md section 6 / C14",
+        "note": "Trusted: Router.tla/RouterSys.tla as transcription of rumqttd/src/router (bound step by step by trace validation of the real router with a full state projection), TLC, the verif hooks that step the router single-threaded, the scripted clients of the harness. Exhaustive only for the small configurations; production constants sampled by validated traces. Topic aliases, subscription ids, message expiry, segment eviction are not modelled here.",
+        "technique": "TLC model checking of RouterSys.tla + TLC trace validation (state projection per step, invariants on every trace state) of the real router stepped through TLC-generated and seeded schedules",
+    },
+    "C15": {
+        "bins": ["router_run"], "bins_small": ["router_run"],
+        "category": "model_checking",
+        "text": "RouterSys.tla with retained and empty-payload publishes, literal and wildcard subscriptions at QoS 0-2, re-subscription: ghost rules (RetainedRules) demand that every retained replay pushed for a subscription consists of the current retained messages of matching topics only, each once, only for a new subscription, and complete unless cut by the delivery window; live forwards are unflagged (DeliveredExactly counts only unflagged forwards), and the set of retained topics is part of the state projection compared with the real router at every step. TLC-generated schedules and seeded structured scenarios are executed on the real Router (scaled-constant build) and validated step by step against RouterTrace.tla with these invariants evaluated in every state.",
+        "design_ref": "DESIGN.md section 6 / C15",
+        "note": "Trusted: Router.tla/RouterSys.tla as transcription of rumqttd/src/router (bound step by step by trace validation of the real router with a full state projection), TLC, the verif hooks that step the router single-threaded, the scripted clients of the harness. Exhaustive only for the small configurations; production constants sampled by validated traces. Topic aliases, subscription ids, message expiry, segment eviction are not modelled here.",
+        "technique": "TLC model checking of RouterSys.tla + TLC trace validation (state projection per step, invariants on every trace state) of the real router stepped through TLC-generated and seeded schedules",
+    },
+    "C16": {
+        "bins": ["router_run"], "bins_small": ["router_run"],
+        "category": "model_checking",
+        "text": "RouterSys.tla with wills registered at connect, DISCONNECT packets, link ends and PublishWill events in every order: WillAtMostOnce, WillNeverAfterDisconnect, WillPublishedWhenDue (checked when the event channel is empty), and the will reaches the matching subscribers like any publish (DeliveredExactly, retained wills via RetainedRules). The link-side decision (remote(): will delay, takeover cancel/fire) is not part of this check. TLC-generated schedules and seeded structured scenarios are executed on the real Router (scaled-constant build) and validated step by step against RouterTrace.tla with these invariants evaluated in every state.",
+        "design_ref": "DESIGN.md section 6 / C16",
+        "note": "Trusted: Router.tla/RouterSys.tla as transcription of rumqttd/src/router (bound step by step by trace validation of the real router with a full state projection), TLC, the verif hooks that step the router single-threaded, the scripted clients of the harness. Exhaustive only for the small configurations; production constants sampled by validated traces. Topic aliases, subscription ids, message expiry, segment eviction are not modelled here.",
+        "technique": "TLC model checking of RouterSys.tla + TLC trace validation (state projection per step, invariants on every trace state) of the real router stepped through TLC-generated and seeded schedules",
+    },
     "C02": {
         "bins": ["client_sm", "client_loop"],
         "category": "model_checking",
